@@ -47,6 +47,8 @@ type skel struct {
 	facts  []fact
 	known  map[string]knownFn // funcKey -> fully translated function
 	strict bool               // a condition outside the subset is fatal (otherwise its text stays in the shape)
+	exprs  bool               // also emit F_exprs: the source text of every extracted condition / value (pins the atoms, i.e.
+	// the ARGUMENTS of the untranslated calls that a cond/val definition only sees as a parameter)
 }
 
 type knownFn struct {
@@ -403,6 +405,7 @@ type fnx struct {
 	nCond int
 	nVal  int
 	defs  bytes.Buffer
+	exprs []string // "cond<k>: <source text>" / "val<k>: <source text>" in extraction order (emitted as F_exprs when skel.exprs)
 }
 
 // try translates x tentatively; ok=false if it is outside the subset.
@@ -427,6 +430,7 @@ func (f *fnx) cond(c ast.Expr, what string) string {
 		return "‹" + oneLine(c) + "›"
 	}
 	n := fmt.Sprintf("%s_cond%d", f.name, f.nCond)
+	f.exprs = append(f.exprs, fmt.Sprintf("cond%d: %s", f.nCond, oneLine(c)))
 	f.nCond++
 	fmt.Fprintf(&f.defs, "/-- %s: %s condition of %s: `%s` -/\ndef %s%s : Bool :=\n  %s\n\n", relline(c.Pos()), what, f.key, oneLine(c), n, e.atoms.params(), t)
 	return n[len(f.name)+1:]
@@ -449,6 +453,7 @@ func (f *fnx) hole(x ast.Expr) string {
 			if !(len(atoms.list) == 1 && t == atoms.list[0].name) {
 				k := (&xenv{s: f.s}).kind(ux)
 				n := fmt.Sprintf("%s_val%d", f.name, f.nVal)
+				f.exprs = append(f.exprs, fmt.Sprintf("val%d: %s", f.nVal, oneLine(ux)))
 				f.nVal++
 				fmt.Fprintf(&f.defs, "/-- %s: value in %s: `%s` -/\ndef %s%s : %s :=\n  %s\n\n", relline(ux.Pos()), f.key, oneLine(ux), n, atoms.params(), k, t)
 				return n[len(f.name)+1:]
@@ -629,6 +634,9 @@ func (s *skel) extract(key, name string) {
 	s.out.Write(f.defs.Bytes())
 	fmt.Fprintf(s.out, "def %s_numConds : Nat := %d\ndef %s_numVals : Nat := %d\n", name, f.nCond, name, f.nVal)
 	fmt.Fprintf(s.out, "/-- the statement structure of %s; cond<k> / val<k> stand for the definitions above -/\ndef %s_shape : String :=\n  %s\n\n", key, name, leanString(shape))
+	if s.exprs {
+		fmt.Fprintf(s.out, "/-- the source text of the extracted conditions / values of %s (their atoms = parameters, in the order of the definitions) -/\ndef %s_exprs : String :=\n  %s\n\n", key, name, leanString(strings.Join(f.exprs, " | ")))
+	}
 	s.facts = append(s.facts, fact{Name: s.pi.pkg.Name() + "." + key, Kind: "skeleton", Pos: relline(fd.Pos()),
 		Lean: fmt.Sprintf("S2.Generated.%s.%s_{shape,cond0..%d,val0..%d}", s.ns, name, f.nCond-1, f.nVal-1), Sha256: sha(src(fd))})
 }
@@ -873,7 +881,8 @@ func genRest(ld *loader, facts *[]fact, files map[string]string) {
 
 const cellPrelude = `/-
   GENERATED by translator_c19 from s2/cell.go — do not edit.
-  Regenerated on every run of ./check; S2Proofs/Ties/C12.lean ties the hand model S2.CellM to it.
+  Regenerated on every run of ./check; S2Proofs/Ties/C12.lean ties the hand model S2.CellM to it,
+  S2Proofs/Ties/C12_Edge.lean the hand model S2.CellEdgeM (edge / cell targets).
   Skeleton extraction (conditions, values, shapes) over the soft-float S2.F64: see translator_c19/rest.go.
   Go's a > b is written F64.lt b a.
 -/
@@ -941,8 +950,12 @@ func genCell(ld *loader, facts *[]fact, files map[string]string) {
 	// of the two functions) stop building instead of the whole translator failing
 	s.floatConst("dblError", "dblError_bits")
 	s.floatConstOpt("edgeIsClosestMargin", "edgeIsClosestMargin_bits")
+	s.exprs = true
 	for _, k := range []string{"edgeDistance", "Cell.vertexChordDist2", "Cell.uEdgeIsClosest", "Cell.vEdgeIsClosest", "Cell.distanceInternal",
-		"Cell.ContainsPoint", "Cell.Distance", "Cell.BoundaryDistance"} {
+		"Cell.ContainsPoint", "Cell.Distance", "Cell.BoundaryDistance",
+		// edge / cell targets (package c12dist2): the hand model is S2.CellEdgeM, the ties are in S2Proofs/Ties/C12_Edge.lean
+		"Cell.MaxDistance", "Cell.DistanceToEdge", "Cell.MaxDistanceToEdge", "Cell.DistanceToCell", "Cell.MaxDistanceToCell",
+		"oppositeFace", "minChordAngle", "maxChordAngle"} {
 		s.extract(k, strings.TrimPrefix(k, "Cell."))
 	}
 	s.out.WriteString("end S2.Generated.CellDistFns\n")
